@@ -482,7 +482,7 @@ func c11TreeClass(goccy bool, t *c11V) string {
 		for i, e := range v.elems {
 			if v.k == 'm' && cls == "" {
 				cls = c11KnownClass(goccy, v.keys[i], true, false)
-				if cls == "" && top && i == 0 {
+				if cls == "" && top {
 					cls = c11KnownTop(goccy, v.keys[i])
 				}
 			}
@@ -533,9 +533,9 @@ func runC11(c *Cfg) {
 	cueexperiment.Init()
 	r := NewRng(c.Seed)
 	pool := c11BasePool()
-	nRand := c.Pick(2500, 60000)
+	nRand := c.Pick(2500, 25000)
 	if c.Focus {
-		nRand = c.Pick(6000, 60000)
+		nRand = c.Pick(6000, 25000)
 	}
 	seen := map[string]bool{}
 	for _, s := range pool {
@@ -569,7 +569,7 @@ func runC11(c *Cfg) {
 		}
 		// --- classification of plain texts ---
 		if goccy {
-			nCls := c.Pick(6000, 150000)
+			nCls := c.Pick(6000, 60000)
 			cr := r.Sub()
 			texts := append([]string{}, pool...)
 			for i := 0; i < nCls; i++ {
@@ -581,7 +581,7 @@ func runC11(c *Cfg) {
 			}
 		}
 		// --- random trees through every route ---
-		nTrees := c.Pick(2500, 60000)
+		nTrees := c.Pick(2500, 25000)
 		tr := r.Sub()
 		for i := 0; i < nTrees; i++ {
 			sub := tr.Sub()
@@ -589,19 +589,19 @@ func runC11(c *Cfg) {
 			jobs = append(jobs, func(ctx *cue.Context) { c11Tree(c, ctx, goccy, sub, pool, clean) })
 		}
 		// --- CUE source incl. flow style ---
-		nSrc := c.Pick(800, 20000)
+		nSrc := c.Pick(800, 8000)
 		for i := 0; i < nSrc; i++ {
 			sub := tr.Sub()
 			jobs = append(jobs, func(ctx *cue.Context) { c11Source(c, ctx, goccy, sub, pool) })
 		}
 		// --- builtins ---
-		nBi := c.Pick(300, 6000)
+		nBi := c.Pick(300, 3000)
 		for i := 0; i < nBi; i++ {
 			sub := tr.Sub()
 			jobs = append(jobs, func(ctx *cue.Context) { c11Builtin(c, ctx, goccy, sub, pool) })
 		}
 		// --- JSON documents ---
-		nJSON := c.Pick(2500, 60000)
+		nJSON := c.Pick(2500, 25000)
 		for i := 0; i < nJSON; i++ {
 			sub := tr.Sub()
 			jobs = append(jobs, func(ctx *cue.Context) { c11JSON(c, ctx, goccy, sub, pool) })
@@ -624,7 +624,7 @@ func runC11(c *Cfg) {
 		sort.Strings(names)
 		rr := r.Sub()
 		texts := append([]string{}, pool...)
-		for i := 0; i < c.Pick(8000, 200000); i++ {
+		for i := 0; i < c.Pick(8000, 30000); i++ {
 			texts = append(texts, c11NumSoup(rr.Sub()))
 		}
 		for _, n := range names {
@@ -827,6 +827,15 @@ func c11StyleOps(c *Cfg, goccy bool, s string) {
 	}
 	if goccy {
 		lex, libq := c11Lex(s), c11B(c11LibNeedQuoted(s))
+		// the two lexical facts about the library that C11_plain_is_string assumes
+		if s != "" {
+			nonString := strings.ContainsAny(lex[1:2], "bnifamde")
+			c.Direct(!(lex[0] == '1' && nonString && !strings.ContainsRune("0123456789+-.~<tTfFnN", rune(s[0]))), "lexer-contract",
+				fmt.Sprintf("goccy lexer types %q as a non-string scalar (%s) although it does not start with a byte of nonStringStarts: hypothesis hstart of C11_plain_is_string fails", s, lex), map[string]any{"string": s})
+			if libq == "0" && !strings.ContainsAny(s, "\n\r") && (lex[0] != '1' || lex[2] != '1') {
+				c.Count("lex/library-leaves-plain-but-lexer-does-not-read-one-token-back(hlib fails; informational)")
+			}
+		}
 		for _, multi := range []bool{false, true} {
 			out, ok := encode(&ast.File{Decls: []ast.Decl{&ast.Field{Label: ast.NewIdent("k"), Value: lit(multi)}}})
 			ans := "err"
@@ -836,13 +845,32 @@ func c11StyleOps(c *Cfg, goccy bool, s string) {
 				ans = "weird"
 			}
 			c.Op("O", fmt.Sprintf("style v %s %s %s %s", H(s), c11B(multi), lex, libq), ans)
+			if multi && ans == "literal" {
+				// tie of the block model (emitBlock/parseBlock) to the library: what the real
+				// decoder reads back from the real literal block
+				back := "err"
+				if e, err := cueyaml.Unmarshal("x.yaml", []byte(out)); err == nil {
+					if st, ok := e.(*ast.StructLit); ok && len(st.Elts) == 1 {
+						if f, ok := st.Elts[0].(*ast.Field); ok {
+							if d := c11DescribeExpr(f.Value); strings.HasPrefix(d, "str ") {
+								back = d[4:]
+							}
+						}
+					}
+				}
+				c.OpTag("I", c11KnownClass(true, s, false, true), "block 2 "+H(s), back)
+			}
 		}
 		out, ok := encode(&ast.File{Decls: []ast.Decl{&ast.Field{Label: ast.NewString(s), Value: ast.NewLit(token.INT, "1")}}})
 		ans := "err"
 		if ok && strings.HasSuffix(out, ": 1\n") {
 			ans = c11VisibleStyle(out)
 		}
-		c.Op("O", fmt.Sprintf("style k %s 0 %s %s", H(s), lex, libq), ans)
+		tag := ""
+		if k := c11KnownClass(true, s, true, false); k == "goccy-question-mark-prefix-with-line-break" {
+			tag = k // the decision (single quotes) is the model's; the library then mangles the raw line break
+		}
+		c.OpTag("O", tag, fmt.Sprintf("style k %s 0 %s %s", H(s), lex, libq), ans)
 		return
 	}
 	// yaml.v3 based encoder: the in-repo decision is legacyStrings/useQuote → double quotes,
@@ -869,6 +897,7 @@ func c11StyleOps(c *Cfg, goccy bool, s string) {
 	ans = "err"
 	if ok && strings.HasSuffix(out, ": 1\n") {
 		ans = "other"
+		out = strings.TrimPrefix(out, "? ") // long keys are written as explicit keys
 		if c11VisibleStyle(out) == "double" {
 			ans = "double"
 		}
